@@ -26,6 +26,10 @@ def finite_only(obj):
     message file may contain): such numbers - a BGP-LS bandwidth taken from the wire can be one - are written as text"""
     if isinstance(obj, float) and (obj != obj or obj in (float('inf'), float('-inf'))):
         return repr(obj)
+    if isinstance(obj, int) and not isinstance(obj, bool) and obj.bit_length() > 8192:
+        # an integer the decimal conversion of which the interpreter may refuse (CPython 3.11+: more than 4300 digits raise
+        # ValueError in the middle of json.dump) - a BGP-LS TLV value read as one number can be that long: hexadecimal text
+        return hex(obj)
     if isinstance(obj, dict):
         return dict((k, finite_only(v)) for k, v in obj.items())
     if isinstance(obj, (list, tuple)):
